@@ -246,6 +246,7 @@ type vFARSpec struct {
 	OHCTeid uint32
 	OHCIP   string
 	SndEM   bool
+	SMExtra uint8 // other bits of the PFCPSMReq-Flags octet (DROBU 0x01, QAURR 0x04, spare) set next to / instead of SNDEM
 	SMFlags bool // include PFCPSMReq-Flags IE
 }
 
@@ -315,9 +316,9 @@ func (s vFARSpec) fwdIEs() []*ie.IE {
 		f = append(f, ie.NewOuterHeaderCreation(0x0100, s.OHCTeid, s.OHCIP, "", 0, 0, 0))
 	}
 	if s.SMFlags || s.SndEM {
-		fl := uint8(0)
+		fl := s.SMExtra &^ 0x02
 		if s.SndEM {
-			fl = 0x02
+			fl |= 0x02
 		}
 		f = append(f, ie.NewPFCPSMReqFlags(fl))
 	}
